@@ -1,0 +1,31 @@
+//go:build verif
+
+// Contracts for package character (read by /verif/gocv; comment-only effect with the verif tag off).
+
+package character
+
+// ---------------------------------------------------------------------------
+// C19: the character tokenizer never panics; offsets point into the source text
+// ---------------------------------------------------------------------------
+
+// utf8.DecodeRune (assumed): consumes between 1 and 4 bytes of a non-empty input, never more than
+// there are; an empty input yields (RuneError, 0).
+//@ assume func utf8.DecodeRune(p)
+//@   pure
+//@   ensures result1 >= 0 && result1 <= len(p) && implies(len(p) == 0, result0 == utf8.RuneError && result1 == 0) && implies(len(p) > 0, result1 >= 1 && result1 <= 4)
+
+// a token of the input: a non-empty byte range of it, and Term is exactly that range (same storage)
+//@ spec tokOf(input []byte, t *analysis.Token) bool = t != nil && 0 <= t.Start && t.Start < t.End && t.End <= len(input) && \
+//@     base(t.Term) == base(input) && offset(t.Term) == offset(input) + t.Start && len(t.Term) == t.End - t.Start
+
+// Tokenize: every token is a range of the input, ranges are disjoint and ascending, positions are
+// 1, 2, 3, ...; no index is out of range for any input and any classification function.
+//@ func CharacterTokenizer.Tokenize
+//@   props C19
+//@   mode int
+//@   requires c != nil && c.isTokenRun != nil
+//@   ensures forall(k, 0, len(result), tokOf(input, result[k]) && result[k].Position == k+1)
+//@   ensures forall(k, 0, len(result)-1, result[k].End <= result[k+1].Start)
+//@   loop 0: invariant 0 <= start && start <= end && end <= offset && offset <= len(input) && count == len(rv) && size >= 0 && offset + size <= len(input) && implies(currRune != utf8.RuneError, size >= 1)
+//@   loop 0: invariant forall(k, 0, len(rv), tokOf(input, rv[k]) && rv[k].Position == k+1) && forall(k, 0, len(rv)-1, rv[k].End <= rv[k+1].Start) && implies(len(rv) > 0, rv[len(rv)-1].End <= start)
+//@   loop 0: decreases len(input) - offset
